@@ -38,16 +38,16 @@ theorem eval_sem_related (c : Cfg) (hq1 : c.q.callCopies = true) (hq2 : c.q.oper
     | seq a b =>
       simp only [WS, Bool.and_eq_true] at hw
       simp only [eval, sem]
-      rcases (ih a exact S ρ1 ρ2 hw.1 hi).cases with ⟨e, h1, h2⟩ | ⟨v1, v2, h1, h2, hv⟩
+      rcases (ih a exact S ρ1 ρ2 hw.1 hi).cases with ⟨e, _, _, h1, h2⟩ | ⟨v1, v2, h1, h2, hv⟩
       · simp only [h1, h2]; exact RRel.err e
       · simp only [h1, h2]
-        rcases (ih b exact S ρ1 ρ2 hw.2 hi).cases with ⟨e, h3, h4⟩ | ⟨w1, w2, h3, h4, hw2⟩
+        rcases (ih b exact S ρ1 ρ2 hw.2 hi).cases with ⟨e, _, _, h3, h4⟩ | ⟨w1, w2, h3, h4, hw2⟩
         · simp only [h3, h4]; exact RRel.err e
         · simp only [h3, h4]; exact RRel.ok (hv.append hw2)
     | add a b =>
       simp only [WS, Bool.and_eq_true] at hw
       simp only [eval, sem]
-      rcases operands_rel ih hw.1 hw.2 hi with ⟨e, h1, h2⟩ | ⟨h1, h2⟩ | ⟨x1, y1, x2, y2, h1, h2, hx, hy⟩
+      rcases operands_rel ih hw.1 hw.2 hi with ⟨e, _, _, h1, h2⟩ | ⟨h1, h2⟩ | ⟨x1, y1, x2, y2, h1, h2, hx, hy⟩
       · simp only [h1, h2]; exact RRel.err e
       · simp only [h1, h2]; exact RRel.ok .nil
       · simp only [h1, h2, addItems_rel hx hy]
@@ -57,7 +57,7 @@ theorem eval_sem_related (c : Cfg) (hq1 : c.q.callCopies = true) (hq2 : c.q.oper
     | sub a b =>
       simp only [WS, Bool.and_eq_true] at hw
       simp only [eval, sem]
-      rcases operands_rel ih hw.1 hw.2 hi with ⟨e, h1, h2⟩ | ⟨h1, h2⟩ | ⟨x1, y1, x2, y2, h1, h2, hx, hy⟩
+      rcases operands_rel ih hw.1 hw.2 hi with ⟨e, _, _, h1, h2⟩ | ⟨h1, h2⟩ | ⟨x1, y1, x2, y2, h1, h2, hx, hy⟩
       · simp only [h1, h2]; exact RRel.err e
       · simp only [h1, h2]; exact RRel.ok .nil
       · simp only [h1, h2, subItems_fixed hq2, subPure_rel hx hy]
@@ -67,10 +67,10 @@ theorem eval_sem_related (c : Cfg) (hq1 : c.q.callCopies = true) (hq2 : c.q.oper
     | eq a b =>
       simp only [WS, Bool.and_eq_true] at hw
       simp only [eval, sem]
-      rcases (ih a exact S ρ1 ρ2 hw.1 hi).cases with ⟨e, h1, h2⟩ | ⟨v1, v2, h1, h2, hv⟩
+      rcases (ih a exact S ρ1 ρ2 hw.1 hi).cases with ⟨e, _, _, h1, h2⟩ | ⟨v1, v2, h1, h2, hv⟩
       · simp only [h1, h2]; exact RRel.err e
       · simp only [h1, h2]
-        rcases (ih b exact S ρ1 ρ2 hw.2 hi).cases with ⟨e, h3, h4⟩ | ⟨w1, w2, h3, h4, hw2⟩
+        rcases (ih b exact S ρ1 ρ2 hw.2 hi).cases with ⟨e, _, _, h3, h4⟩ | ⟨w1, w2, h3, h4, hw2⟩
         · simp only [h3, h4]; exact RRel.err e
         · simp only [h3, h4, genEq_rel hv hw2]
           cases genEq v2 w2 with
@@ -79,7 +79,7 @@ theorem eval_sem_related (c : Cfg) (hq1 : c.q.callCopies = true) (hq2 : c.q.oper
     | dt l z => exact RRel.ok (.cons (.dtv l z) .nil)
     | tzOf e =>
       simp only [eval, sem]
-      rcases (ih e exact S ρ1 ρ2 (by simpa [WS] using hw) hi).cases with ⟨e, h1, h2⟩ | ⟨v1, v2, h1, h2, hv⟩
+      rcases (ih e exact S ρ1 ρ2 (by simpa [WS] using hw) hi).cases with ⟨e, _, _, h1, h2⟩ | ⟨v1, v2, h1, h2, hv⟩
       · simp only [h1, h2]; exact RRel.err e
       · simp only [h1, h2, tzItem_rel hv]
         cases hr : tzItem h v2 with
@@ -88,37 +88,37 @@ theorem eval_sem_related (c : Cfg) (hq1 : c.q.callCopies = true) (hq2 : c.q.oper
     | letE x e body =>
       simp only [WS, Bool.and_eq_true] at hw
       simp only [eval, sem]
-      rcases (ih e exact S ρ1 ρ2 hw.1 hi).cases with ⟨e, h1, h2⟩ | ⟨v1, v2, h1, h2, hv⟩
+      rcases (ih e exact S ρ1 ρ2 hw.1 hi).cases with ⟨e, _, _, h1, h2⟩ | ⟨v1, v2, h1, h2, hv⟩
       · simp only [h1, h2]; exact RRel.err e
       · simp only [h1, h2]
-        rcases (ih body exact (x :: S) _ _ hw.2 ((hi.weaken x).bind hv)).cases with ⟨e, h3, h4⟩ | ⟨w1, w2, h3, h4, hw2⟩
+        rcases (ih body exact (x :: S) _ _ hw.2 ((hi.weaken x).bind hv)).cases with ⟨e, _, _, h3, h4⟩ | ⟨w1, w2, h3, h4, hw2⟩
         · simp only [h3, h4]; exact RRel.err e
         · simp only [h3, h4]; exact RRel.ok hw2
     | forE x r body =>
       simp only [WS, Bool.and_eq_true] at hw
       simp only [eval, sem]
-      rcases (ih r exact S ρ1 ρ2 hw.1 hi).cases with ⟨e, h1, h2⟩ | ⟨v1, v2, h1, h2, hv⟩
+      rcases (ih r exact S ρ1 ρ2 hw.1 hi).cases with ⟨e, _, _, h1, h2⟩ | ⟨v1, v2, h1, h2, hv⟩
       · simp only [h1, h2]; exact RRel.err e
       · simp only [h1, h2]
-        rcases forLoop_rel ih hw.2 v1 v2 hv ρ1 (hi.weaken x) with ⟨e, h3, h4⟩ | ⟨w1, w2, ρ', h3, h4, hw2⟩
+        rcases forLoop_rel ih hw.2 v1 v2 hv ρ1 (hi.weaken x) with ⟨e, _, _, h3, h4⟩ | ⟨w1, w2, ρ', h3, h4, hw2⟩
         · simp only [h3, h4]; exact RRel.err e
         · simp only [h3, h4]; exact RRel.ok hw2
     | someE x r body =>
       simp only [WS, Bool.and_eq_true] at hw
       simp only [eval, sem]
-      rcases (ih r exact S ρ1 ρ2 hw.1 hi).cases with ⟨e, h1, h2⟩ | ⟨v1, v2, h1, h2, hv⟩
+      rcases (ih r exact S ρ1 ρ2 hw.1 hi).cases with ⟨e, _, _, h1, h2⟩ | ⟨v1, v2, h1, h2, hv⟩
       · simp only [h1, h2]; exact RRel.err e
       · simp only [h1, h2]
-        rcases quantLoop_rel (q := true) ih hw.2 v1 v2 hv ρ1 (hi.weaken x) with ⟨e, h3, h4⟩ | ⟨b, ρ', h3, h4⟩
+        rcases quantLoop_rel (q := true) ih hw.2 v1 v2 hv ρ1 (hi.weaken x) with ⟨e, _, _, h3, h4⟩ | ⟨b, ρ', h3, h4⟩
         · simp only [h3, h4]; exact RRel.err e
         · simp only [h3, h4]; exact RRel.ok (.cons (.bool b) .nil)
     | everyE x r body =>
       simp only [WS, Bool.and_eq_true] at hw
       simp only [eval, sem]
-      rcases (ih r exact S ρ1 ρ2 hw.1 hi).cases with ⟨e, h1, h2⟩ | ⟨v1, v2, h1, h2, hv⟩
+      rcases (ih r exact S ρ1 ρ2 hw.1 hi).cases with ⟨e, _, _, h1, h2⟩ | ⟨v1, v2, h1, h2, hv⟩
       · simp only [h1, h2]; exact RRel.err e
       · simp only [h1, h2]
-        rcases quantLoop_rel (q := false) ih hw.2 v1 v2 hv ρ1 (hi.weaken x) with ⟨e, h3, h4⟩ | ⟨b, ρ', h3, h4⟩
+        rcases quantLoop_rel (q := false) ih hw.2 v1 v2 hv ρ1 (hi.weaken x) with ⟨e, _, _, h3, h4⟩ | ⟨b, ρ', h3, h4⟩
         · simp only [h3, h4]; exact RRel.err e
         · simp only [h3, h4]; exact RRel.ok (.cons (.bool b) .nil)
     | fn ps body =>
@@ -131,7 +131,7 @@ theorem eval_sem_related (c : Cfg) (hq1 : c.q.callCopies = true) (hq2 : c.q.oper
         exact hi.2.2 hb.1 x hx (by simp)
     | call0 f =>
       simp only [eval, sem]
-      rcases (ih f exact S ρ1 ρ2 (by simpa [WS] using hw) hi).cases with ⟨e, h1, h2⟩ | ⟨v1, v2, h1, h2, hv⟩
+      rcases (ih f exact S ρ1 ρ2 (by simpa [WS] using hw) hi).cases with ⟨e, _, _, h1, h2⟩ | ⟨v1, v2, h1, h2, hv⟩
       · simp only [h1, h2]; exact RRel.err e
       · simp only [h1, h2]
         cases hv with
@@ -147,7 +147,7 @@ theorem eval_sem_related (c : Cfg) (hq1 : c.q.callCopies = true) (hq2 : c.q.oper
     | call f a =>
       simp only [WS, Bool.and_eq_true] at hw
       simp only [eval, sem]
-      rcases (ih f exact S ρ1 ρ2 hw.1 hi).cases with ⟨e, h1, h2⟩ | ⟨v1, v2, h1, h2, hv⟩
+      rcases (ih f exact S ρ1 ρ2 hw.1 hi).cases with ⟨e, _, _, h1, h2⟩ | ⟨v1, v2, h1, h2, hv⟩
       · simp only [h1, h2]; exact RRel.err e
       · simp only [h1, h2]
         cases hv with
@@ -159,7 +159,7 @@ theorem eval_sem_related (c : Cfg) (hq1 : c.q.callCopies = true) (hq2 : c.q.oper
             cases hf with
             | fn ps b c1 c2 S' ex hex hws hdom hrel hout =>
               simp only
-              rcases evalArgs_rel ih hi (argToks a) (argToks_ws a hw.2) with ⟨e, h3, h4⟩ | ⟨vs1, vs2, h3, h4, hvs⟩
+              rcases evalArgs_rel ih hi (argToks a) (argToks_ws a hw.2) with ⟨e, _, _, h3, h4⟩ | ⟨vs1, vs2, h3, h4, hvs⟩
               · simp only [h3, h4]; exact RRel.err e
               · simp only [h3, h4]
                 exact applyFn_rel ih hq1 hlex (.fn ps b c1 c2 S' ex hex hws hdom hrel hout) hvs
@@ -167,7 +167,7 @@ theorem eval_sem_related (c : Cfg) (hq1 : c.q.callCopies = true) (hq2 : c.q.oper
     | durLit s => exact RRel.ok (.cons (.dur s) .nil)
     | adjust1 e =>
       simp only [eval, sem]
-      rcases (ih e exact S ρ1 ρ2 (by simpa [WS] using hw) hi).cases with ⟨e, h1, h2⟩ | ⟨v1, v2, h1, h2, hv⟩
+      rcases (ih e exact S ρ1 ρ2 (by simpa [WS] using hw) hi).cases with ⟨e, _, _, h1, h2⟩ | ⟨v1, v2, h1, h2, hv⟩
       · simp only [h1, h2]; exact RRel.err e
       · simp only [h1, h2]
         cases hv with
@@ -183,13 +183,13 @@ theorem eval_sem_related (c : Cfg) (hq1 : c.q.callCopies = true) (hq2 : c.q.oper
     | adjust2 e z =>
       simp only [WS, Bool.and_eq_true] at hw
       simp only [eval, sem]
-      rcases (ih e exact S ρ1 ρ2 hw.1 hi).cases with ⟨e, h1, h2⟩ | ⟨v1, v2, h1, h2, hv⟩
+      rcases (ih e exact S ρ1 ρ2 hw.1 hi).cases with ⟨e, _, _, h1, h2⟩ | ⟨v1, v2, h1, h2, hv⟩
       · simp only [h1, h2]; exact RRel.err e
       · simp only [h1, h2, hv.length_eq]
         by_cases hlen : v2.length > 1
         · simp only [if_pos hlen]; exact RRel.err .type
         · simp only [if_neg hlen]
-          rcases (ih z exact S ρ1 ρ2 hw.2 hi).cases with ⟨e, h3, h4⟩ | ⟨w1, w2, h3, h4, hw2⟩
+          rcases (ih z exact S ρ1 ρ2 hw.2 hi).cases with ⟨e, _, _, h3, h4⟩ | ⟨w1, w2, h3, h4, hw2⟩
           · simp only [h3, h4]; exact RRel.err e
           · simp only [h3, h4, targetOf_rel hw2]
             cases targetOf w2 with
